@@ -3,6 +3,8 @@
 EXPORT_IMPORT_ONLY = {"quick": {"VERIF_FAIL_FILTER": "export-import"}, "thorough": {"VERIF_FAIL_FILTER": "export-import"}}
 # ... and the owning checks leave export/import failures to C19
 NO_EXPORT_IMPORT = {"quick": {"VERIF_FAIL_EXCLUDE": "export-import"}, "thorough": {"VERIF_FAIL_EXCLUDE": "export-import"}}
+# auth is borrowed for the tokenfactory part only: histories end after the tokenfactory phase, most have a hook contract
+EXPORT_IMPORT_ONLY_TF = {t: dict(EXPORT_IMPORT_ONLY[t], VERIF_AUTH_FOCUS="tokenfactory") for t in EXPORT_IMPORT_ONLY}
 PROPS = {
  "C12": {
   "modules": ["OsmoVerif.Props.C12", "OsmoVerif.Props.C12Str"],
@@ -82,7 +84,7 @@ PROPS = {
   "modules": ["OsmoVerif.Props.C18", "OsmoVerif.Props.C18Distr", "OsmoVerif.Props.TieGenMint"],
   "min_theorems": 50,
   "fingerprints": [],
-  "engines": [{"name": "mint", "kind": "app", "n": {"quick": 3000, "thorough": 60000}, "shards": {"quick": 4, "thorough": 16}}],
+  "engines": [{"name": "mint", "kind": "app", "n": {"quick": 3000, "thorough": 60000}, "shards": {"quick": 4, "thorough": 16}, "env": NO_EXPORT_IMPORT}],
   "rule": "histories = random valid parameter set (proportions summing to 1 with 1..18 decimals, each of the four proportions forced to 0 in a share of "
           "the histories, reduction factor/period, start epoch, 0..4 weighted receivers incl. empty addresses, drained vesting account, provisions from 0 / "
           "below one coin / exactly one coin up to the top of Dec) + a world (0-10 gauges created through real balancer pools and the incentives keeper, "
@@ -130,7 +132,7 @@ PROPS = {
   "modules": ["OsmoVerif.Props.C17", "OsmoVerif.Props.TieGenEpochsOps"],
   "min_theorems": 45,
   "fingerprints": ["Epochs.*"],
-  "engines": [{"name": "epochs", "kind": "pure", "n": {"quick": 24000, "thorough": 250000}, "shards": {"quick": 4, "thorough": 16}}],
+  "engines": [{"name": "epochs", "kind": "pure", "n": {"quick": 24000, "thorough": 250000}, "shards": {"quick": 4, "thorough": 16}, "env": NO_EXPORT_IMPORT}],
   "rule": "histories of reset k (0-4 scripted subscribers) + 1-4 timers (durations 1ns..1 week, negative durations, zero start time, "
           "imported running timers, identifiers whose byte order differs from insertion order, malformed AddEpochInfo) + 200-260 blocks with "
           "non-decreasing times (regular, jitter, equal, exactly at / 1ns around the epoch end, around the start time, multi-epoch gaps) and a "
@@ -229,7 +231,7 @@ PROPS = {
   "modules": ["OsmoVerif.Props.C20"],
   "min_theorems": 60,
   "fingerprints": ["Auth.*"],
-  "engines": [{"name": "auth", "kind": "app", "n": {"quick": 24000, "thorough": 240000}, "shards": {"quick": 4, "thorough": 16}}],
+  "engines": [{"name": "auth", "kind": "app", "n": {"quick": 24000, "thorough": 240000}, "shards": {"quick": 4, "thorough": 16}, "env": NO_EXPORT_IMPORT}],
   "rule": "histories through the real msg servers of tokenfactory, lockup, concentrated-liquidity, superfluid, valset-pref and gamm(stableswap): factory denoms (incl. admin changes to users / "
           "module accounts / the pool address and renouncing), locks of lkd / uosmo / gamm-share / CL-share denoms with one gamm lock set up in EACH life-cycle state (bonded, unlocking, "
           "superfluid bonded / undelegating / undelegating+unlocking), CL positions (plain, with an underlying lock, superfluid staked; transfers), stableswap pools with / without a "
@@ -340,7 +342,7 @@ PROPS = {
   "modules": ["OsmoVerif.Props.C02", "OsmoVerif.Props.C02C04", "OsmoVerif.Props.TieGenGammKeeperOps"],
   "min_theorems": 65,
   "fingerprints": ["Gamm.*"],
-  "engines": [{"name": "gamm", "kind": "app", "n": {"quick": 2500, "thorough": 60000}, "shards": {"quick": 4, "thorough": 16}}],
+  "engines": [{"name": "gamm", "kind": "app", "n": {"quick": 2500, "thorough": 60000}, "shards": {"quick": 4, "thorough": 16}, "env": NO_EXPORT_IMPORT}],
   "rule": "histories of 40..140 messages on a fresh chain: 4 actors (one poor), 2..6 balancer pools (2..8 assets, weights 1:1..1:1048575, spread 0..0.5, "
           "also pools of LP shares) and stableswap pools (scaling factors 1..10^6); every join/exit kind, 1..4-hop exact-in and exact-out routes through both "
           "msg servers, direct sends to existing and future pool addresses, share transfers, taker fee default/pair overrides/whitelist incl. 0, 1 ulp, 100%; "
@@ -431,7 +433,7 @@ PROPS = {
   "modules": ["OsmoVerif.Props.C05", "OsmoVerif.Props.TieGenRouter", "OsmoVerif.Props.TieGenRouterOps"],
   "min_theorems": 39,
   "fingerprints": [],
-  "engines": [{"name": "router", "kind": "app", "n": {"quick": 2000, "thorough": 40000}, "shards": {"quick": 4, "thorough": 16}}],
+  "engines": [{"name": "router", "kind": "app", "n": {"quick": 2000, "thorough": 40000}, "shards": {"quick": 4, "thorough": 16}, "env": NO_EXPORT_IMPORT}],
   "rule": "histories = 2-3 balancer + 1-2 stableswap + 2-3 concentrated pools (full-range + narrow positions) over 4-5 denoms, 3-10 prior swaps/joins/positions, "
           "random default taker fee + per-pair overrides (MsgSetDenomPairTakerFee) + reduced-fee whitelist, then 12-25 messages: MsgSwapExactAmountIn/Out over "
           "random walks of 1-4 hops (1 in 6 may revisit pools; ~5% malformed: empty route, unknown pool, denom not in pool), MsgSplitRouteSwapExactAmountIn/Out with 2-4 legs, "
@@ -607,7 +609,16 @@ PROPS = {
               {"name": "incentives", "kind": "app", "n": {"quick": 8000, "thorough": 150000}, "shards": {"quick": 2, "thorough": 8}, "env": EXPORT_IMPORT_ONLY},
               {"name": "twap", "kind": "app", "n": {"quick": 2500, "thorough": 20000}, "shards": {"quick": 2, "thorough": 8}, "env": EXPORT_IMPORT_ONLY},
               {"name": "superfluid", "kind": "app", "n": {"quick": 8000, "thorough": 100000}, "shards": {"quick": 2, "thorough": 8}, "env": EXPORT_IMPORT_ONLY},
-              {"name": "cl", "kind": "app", "n": {"quick": 1000, "thorough": 15000}, "shards": {"quick": 2, "thorough": 8}, "env": EXPORT_IMPORT_ONLY}],
+              {"name": "cl", "kind": "app", "n": {"quick": 1000, "thorough": 15000}, "shards": {"quick": 2, "thorough": 8}, "env": EXPORT_IMPORT_ONLY},
+              # extension round: the engines of C20/C05/C02/C18/C17 borrowed the same way (tf.exportimport, router / gamm / mint / epochs
+              # exportimport) and the two whole-store engines pm (x/poolmanager) and gammg (x/gamm incl. the total-liquidity store)
+              {"name": "auth", "kind": "app", "n": {"quick": 2500, "thorough": 40000}, "shards": {"quick": 2, "thorough": 8}, "env": EXPORT_IMPORT_ONLY_TF},
+              {"name": "router", "kind": "app", "n": {"quick": 250, "thorough": 5000}, "shards": {"quick": 2, "thorough": 8}, "env": EXPORT_IMPORT_ONLY},
+              {"name": "pm", "kind": "app", "n": {"quick": 1200, "thorough": 30000}, "shards": {"quick": 2, "thorough": 8}},
+              {"name": "gamm", "kind": "app", "n": {"quick": 600, "thorough": 12000}, "shards": {"quick": 2, "thorough": 8}, "env": EXPORT_IMPORT_ONLY},
+              {"name": "gammg", "kind": "app", "n": {"quick": 600, "thorough": 12000}, "shards": {"quick": 2, "thorough": 8}, "env": EXPORT_IMPORT_ONLY},
+              {"name": "mint", "kind": "app", "n": {"quick": 1200, "thorough": 20000}, "shards": {"quick": 2, "thorough": 8}, "env": EXPORT_IMPORT_ONLY},
+              {"name": "epochs", "kind": "pure", "n": {"quick": 8000, "thorough": 100000}, "shards": {"quick": 2, "thorough": 8}, "env": EXPORT_IMPORT_ONLY}],
   "rule": "one evaluation = one compared observation: a block (node A vs node B in-process; vs a second OS process with GOMAXPROCS=2/GOGC=25), "
           "a module's exported genesis / a keeper query after export->import, a block of the imported+store-synchronised node. Histories of 40 blocks "
           "(n = blocks per shard) through the real ABCI surface (InitChain/FinalizeBlock with signed txs/Commit): 0-9 txs per block from 12 accounts over "
@@ -626,6 +637,9 @@ PROPS = {
           "engines: lockup (keeper tail with CLUSTERS of >=2 synthetic locks of one synthetic denomination at one synthetic duration on locks of other durations, then exportimport), "
           "superfluid (exportimport also runs x/lockup through export -> wipe -> import), incentives (reference stores and by-denom index compared as membership), twap/cl/superfluid (raw store byte for byte). "
           "non-trivial = block with >=1 tx / non-empty document; distinct = distinct op lines",
+          "Module engines of the extension round: the histories of the owning property with the op exportimport at random points (auth: tokenfactory phase only, two in three histories with "
+          "the no100 contract as before-send hook; router: directed setfee x / setdefault x / export / setdefault y / fee, share agreements and skim accumulators before exports; pm: the whole "
+          "poolmanager store with a dump after every op; gamm/gammg: every C02 message with the total-liquidity store, gamm params and migration records; mint; epochs). "
   "trusted_base": ["cosmos-sdk baseapp/IAVL/cachekv (cachekv flushes in sorted key order: the committed hash depends on the set of writes of a block, not their order)",
                    "T1 map-range classifier tools/extract/gen_det.go: syntactic type resolution (cross-checked once against go/types: 37 of 582 range statements are over maps, "
                    "identical sets) and syntactic body classes sorted/commutative/readonly; everything else must be in the hand-audited table of Props/C19",
@@ -658,7 +672,8 @@ PROPS = {
                   "app hashes are not compared across an import (IAVL versions differ); the imported node whose raw KV stores were synchronised with the exporter must reproduce "
                   "every tx result, gas, event, module export, query and raw store (staking HistoricalInfo, which embeds the app hash, excepted)."],
   "explanation": "65 theorems (mechanisms, distributionInfo/TakerFeeSkim instances, export/import of mint/epochs/sum-tree/accumulator/lockup/incentives/twap/superfluid/"
-                 "CL pool incl. negative witnesses, the T1 obligations) + the module engines lockup/incentives/twap/superfluid/cl running the op exportimport (REAL "
+                 "CL pool incl. negative witnesses, the T1 obligations; extension round: tokenfactory, poolmanager, gamm, mint/epochs on reachable states, layered CL) "
+                 "+ the module engines lockup/incentives/twap/superfluid/cl and auth (tokenfactory)/router/gamm/mint/epochs plus the whole-store engines pm and gammg running the op exportimport (REAL "
                  "ExportGenesis -> module store wiped -> REAL InitGenesis, history continues, every later state line compared with the Lean model) + engine det: per block app hash, "
                  "tx code/codespace/data/log/gas and ordered events of two in-process executions and a second process; export -> import -> per-module genesis, keeper queries, "
                  "invariants, remaining history; probes for the audited order-dependent sites.",
